@@ -111,8 +111,8 @@ impl Prop for C11 {
     }
     fn runs(&self, tier: Tier) -> u64 {
         match tier {
-            Tier::Quick => 1400,
-            Tier::Thorough => 20000,
+            Tier::Quick => 6000,
+            Tier::Thorough => 100000,
         }
     }
     fn rule(&self) -> &'static str {
